@@ -131,6 +131,13 @@ static std::string hammer(const std::vector<std::string>& a) {
     std::atomic<U64> hits(0), inserts(0), badCnt(0);
     std::string badMsg;
     std::mutex badMutex;
+    for (int g = 0; g < (int)(seed % 5); g++) {          // a few generations of older entries, written single-threaded
+        for (U64 key : keys) {
+            Rec r = recOf(key, g & 7);
+            table.insert(key, Move(Square(r.from), Square(r.to), 0, r.score), r.type, 0, r.depth, r.eval);
+        }
+        table.nextGeneration();
+    }
     auto deadline = std::chrono::steady_clock::now() + std::chrono::milliseconds(millis);
     auto worker = [&](int tid) {
         U64 s = mix(seed, tid + 1);
@@ -146,7 +153,8 @@ static std::string hammer(const std::vector<std::string>& a) {
                 Move m(Square(emptyMove ? 0 : r.from), Square(emptyMove ? 0 : r.to), 0, r.score);
                 table.insert(key, m, r.type, 0, r.depth, r.eval);
                 inserts++;
-                if (((s >> 50) & 255) == 0) table.nextGeneration();
+                // (no nextGeneration() here: in the engine the generation changes only between searches, while the helpers are parked;
+                //  calling it from a hammer thread would be a race of the harness, not of the table)
             } else {
                 TTEntry e;
                 table.probe(key, e);
